@@ -362,6 +362,15 @@ def bare_engine_probe(tree, truth, env, proc, stats, ctx):
         moved = tree.transferred_to(bare)
         doomed = bare.make_doomed_relation(set(tree.columns), ["nothing here"], name="bare_doomed")
         probes = [("chain(tree -> bare engine, doomed leaf of the bare engine)", moved.chain(doomed)), ("chain(doomed leaf of the bare engine, tree -> bare engine)", doomed.chain(moved)), ("the bare engine's doomed leaf alone", doomed)]
+        # statically empty trees below a materialization: no hook is needed, nothing can be cached in an engine without
+        # payloads for doomed relations, and process() still has to return an (empty) relation of that engine
+        doomed2 = bare.make_doomed_relation(set(tree.columns), ["nothing here either"], name="bare_doomed2")
+        empties = [
+            ("materialize(chain of two doomed leaves of the bare engine)", doomed.chain(doomed2).materialized("bare_m0")),
+            ("materialize(chain(empty window of tree -> bare engine, doomed leaf))", moved[0:0].chain(doomed).materialized("bare_m1")),
+            ("materialize(doomed leaf chained with itself), then an empty window", doomed.chain(doomed).materialized("bare_m2")[0:0]),
+        ]
+        probes += empties
     except Exception as e:
         if isinstance(e, (ColumnError, EngineError)) or is_order_loss(e):
             stats.c["bare:refused"] += 1
@@ -377,6 +386,11 @@ def bare_engine_probe(tree, truth, env, proc, stats, ctx):
         if set(out.columns) != set(rel.columns) or out.engine is not bare:
             raise Violation("result-columns", f"process() of {what}: columns {set(out.columns)} / engine {out.engine}; {ctx}")
         if rel is doomed:
+            continue
+        if any(rel is e[1] for e in empties):
+            if out.max_rows != 0:
+                raise Violation("rows-differ", f"process() of {what} returned {str(out)[:200]} with max_rows={out.max_rows}; the tree is statically empty; {ctx}", call="bare")
+            stats.c["bare:empty-materializations"] += 1
             continue
         if out.max_rows == 0 or out.is_join_identity:
             # statically trivial: an engine without payloads for doomed / join-identity relations has nothing to attach
